@@ -4,7 +4,7 @@ from __future__ import annotations
 import itertools
 
 from mc import decobs
-from mc.core import pmap, short_hash
+from mc.core import pmap, short_hash, run_tasks
 from mc.decobs import typed
 from ref import decmodel, printing
 
@@ -156,8 +156,7 @@ def work(cases):
 def run(ctx):
     cases = [(pat, n, fv) for pat in BF_PATTERNS for n in N_LINES for fv in range(len(FS_VARIANTS))]
     ctx.log(f"{len(cases)} tables x {len(OPTION_SETS)} option combinations + {len(INVALID_OPTIONS)} invalid ones")
-    for r in pmap(work, [cases[i:i + 6] for i in range(0, len(cases), 6)] + [["special"]], ctx.workers):
-        ctx.absorb(r)
+    run_tasks(ctx, work, [cases[i:i + 6] for i in range(0, len(cases), 6)] + [["special"]])
     ctx.count(states=len(cases) + 1, transitions=ctx.traces)
     ctx.part("tables", tables=len(cases), bf_patterns=list(BF_PATTERNS), n_lines=N_LINES, option_sets=len(OPTION_SETS), invalid_option_sets=len(INVALID_OPTIONS), complete=True)
     ex = ("tie-at-max", 4, 0)
